@@ -1009,4 +1009,173 @@ func (*ArrayTupleOfValue).AppendAtInt
   ensures set: index >= 0 ==> ret == Undefined && elem(*t, index) == val && len(*t) == ite(index >= old(len(*t)), index + 1, old(len(*t)))
   ensures prefix: index >= 0 ==> forall k int :: 0 <= k && k < old(len(*t)) && k != index ==> elem(*t, k) == old(elem(*t, k))
   ensures gap: index >= 0 ==> forall k int :: old(len(*t)) <= k && k < index ==> elem(*t, k) == Nil
+
+// BigFloat arithmetic (math/big.Float precision semantics) is outside the verified subset:
+// the mixed Int x BigFloat helpers are trusted to return a new BigFloat and touch nothing else.
+func (SmallInt).AddBigFloat
+  trusted
+  assigns fresh
+  ensures ret != nil && fresh(ret)
+
+func (SmallInt).SubtractBigFloat
+  trusted
+  assigns fresh
+  ensures ret != nil && fresh(ret)
+
+func (SmallInt).MultiplyBigFloat
+  trusted
+  assigns fresh
+  ensures ret != nil && fresh(ret)
+
+func (SmallInt).DivideBigFloat
+  trusted
+  assigns fresh
+  ensures ret != nil && fresh(ret)
+
+func (SmallInt).ModuloBigFloat
+  trusted
+  assigns fresh
+  ensures ret != nil && fresh(ret)
+
+func (SmallInt).ExponentiateBigFloat
+  trusted
+  assigns fresh
+  ensures ret != nil && fresh(ret)
+
+func (*BigInt).AddBigFloat
+  trusted
+  assigns fresh
+  ensures ret != nil && fresh(ret)
+
+func (*BigInt).SubtractBigFloat
+  trusted
+  assigns fresh
+  ensures ret != nil && fresh(ret)
+
+func (*BigInt).MultiplyBigFloat
+  trusted
+  assigns fresh
+  ensures ret != nil && fresh(ret)
+
+func (*BigInt).DivideBigFloat
+  trusted
+  assigns fresh
+  ensures ret != nil && fresh(ret)
+
+func (*BigInt).ModuloBigFloat
+  trusted
+  assigns fresh
+  ensures ret != nil && fresh(ret)
+
+func (*BigInt).ExponentiateBigFloat
+  trusted
+  assigns fresh
+  ensures ret != nil && fresh(ret)
+
+// ---- T.XVal(other): the dispatch every evaluation path ends in (C08) -----------------
+// `pure`: the result is a function of the operands (and of the big integers they denote), so
+// the typed opcode, the generic opcode and constant folding can be compared call for call.
+func (SmallInt).AddVal
+  props C06 C08
+  pure
+  reads bigval
+  assigns fresh
+  requires wfv(other)
+  ensures int: isInt(other) ==> ret1 == Undefined && isInt(ret0) && intval(ret0) == i + old(intval(other)) && canon(ret0)
+
+func (SmallInt).SubtractVal
+  props C06 C08
+  pure
+  reads bigval
+  assigns fresh
+  requires wfv(other)
+  ensures int: isInt(other) ==> ret1 == Undefined && isInt(ret0) && intval(ret0) == i - old(intval(other)) && canon(ret0)
+
+func (SmallInt).MultiplyVal
+  props C06 C08
+  pure
+  reads bigval
+  assigns fresh
+  requires wfv(other)
+  ensures int: isInt(other) ==> ret1 == Undefined && isInt(ret0) && intval(ret0) == i * old(intval(other)) && canon(ret0)
+
+func (SmallInt).DivideVal
+  props C06 C08
+  pure
+  reads bigval
+  assigns fresh
+  requires wfv(other)
+  ensures zero: isInt(other) && old(intval(other)) == 0 ==> ret0 == Undefined && isErr(ret1, ZeroDivisionErrorClass)
+  ensures intS: isSmall(other) && wrapS64(other.data) != 0 ==> ret1 == Undefined && isInt(ret0) && intval(ret0) == tdiv(i, wrapS64(other.data)) && canon(ret0)
+  ensures intB: isBig(other) && old(bigval(other.ptr)) != 0 ==> ret1 == Undefined && isInt(ret0) && intval(ret0) == tdiv(i, old(bigval(other.ptr))) && canon(ret0)
+
+func (SmallInt).ModuloVal
+  props C06 C08
+  pure
+  reads bigval
+  assigns fresh
+  requires wfv(other)
+  ensures zero: isInt(other) && old(intval(other)) == 0 ==> ret0 == Undefined && isErr(ret1, ZeroDivisionErrorClass)
+  ensures intS: isSmall(other) && wrapS64(other.data) != 0 ==> ret1 == Undefined && isInt(ret0) && intval(ret0) == tmod(i, wrapS64(other.data)) && canon(ret0)
+  ensures intB: isBig(other) && old(bigval(other.ptr)) != 0 ==> ret1 == Undefined && isInt(ret0) && intval(ret0) == tmod(i, old(bigval(other.ptr))) && canon(ret0)
+
+func (SmallInt).ExponentiateVal
+  props C06 C08
+  pure
+  reads bigval
+  assigns fresh
+  requires wfv(other)
+  ensures int: isInt(other) && old(intval(other)) >= 0 ==> ret1 == Undefined && isInt(ret0) && intval(ret0) == ipow(i, old(intval(other))) && canon(ret0)
+
+func (*BigInt).AddVal
+  props C06 C08
+  pure
+  reads bigval
+  assigns fresh
+  requires i != nil && wfv(other)
+  ensures int: isInt(other) ==> ret1 == Undefined && isInt(ret0) && intval(ret0) == old(bigval(i)) + old(intval(other)) && canon(ret0)
+
+func (*BigInt).SubtractVal
+  props C06 C08
+  pure
+  reads bigval
+  assigns fresh
+  requires i != nil && wfv(other)
+  ensures int: isInt(other) ==> ret1 == Undefined && isInt(ret0) && intval(ret0) == old(bigval(i)) - old(intval(other)) && canon(ret0)
+
+func (*BigInt).MultiplyVal
+  props C06 C08
+  pure
+  reads bigval
+  assigns fresh
+  requires i != nil && wfv(other)
+  ensures int: isInt(other) ==> ret1 == Undefined && isInt(ret0) && intval(ret0) == old(bigval(i)) * old(intval(other)) && canon(ret0)
+
+func (*BigInt).DivideVal
+  props C06 C08
+  pure
+  reads bigval
+  assigns fresh
+  requires i != nil && wfv(other)
+  ensures zero: isInt(other) && old(intval(other)) == 0 ==> ret0 == Undefined && isErr(ret1, ZeroDivisionErrorClass)
+  ensures intS: isSmall(other) && wrapS64(other.data) != 0 ==> ret1 == Undefined && isInt(ret0) && intval(ret0) == tdiv(old(bigval(i)), wrapS64(other.data)) && canon(ret0)
+  ensures intB: isBig(other) && old(bigval(other.ptr)) != 0 ==> ret1 == Undefined && isInt(ret0) && intval(ret0) == tdiv(old(bigval(i)), old(bigval(other.ptr))) && canon(ret0)
+
+func (*BigInt).ModuloVal
+  props C06 C08
+  pure
+  reads bigval
+  assigns fresh
+  requires i != nil && wfv(other)
+  ensures zero: isInt(other) && old(intval(other)) == 0 ==> ret0 == Undefined && isErr(ret1, ZeroDivisionErrorClass)
+  ensures intS: isSmall(other) && wrapS64(other.data) != 0 ==> ret1 == Undefined && isInt(ret0) && intval(ret0) == tmod(old(bigval(i)), wrapS64(other.data)) && canon(ret0)
+  ensures intB: isBig(other) && old(bigval(other.ptr)) != 0 ==> ret1 == Undefined && isInt(ret0) && intval(ret0) == tmod(old(bigval(i)), old(bigval(other.ptr))) && canon(ret0)
+
+func (*BigInt).ExponentiateVal
+  props C06 C08
+  pure
+  reads bigval
+  assigns fresh
+  requires i != nil && wfv(other)
+  ensures int: isInt(other) && old(intval(other)) >= 0 ==> ret1 == Undefined && isInt(ret0) && intval(ret0) == ipow(old(bigval(i)), old(intval(other))) && canon(ret0)
 @*/
